@@ -91,7 +91,7 @@ func buildOnce(doc, format string) ([]byte, string) {
 // the times a stamp may come from: every file and directory below the places sources live in
 func diskTimes() []int64 {
 	seen := map[int64]bool{}
-	for _, root := range []string{"src", "scripts", "changelog.yaml", "many", "stage"} {
+	for _, root := range []string{"src", "scripts", "changelog.yaml", "many", "stage", "hardlinks"} {
 		filepath.Walk(root, func(p string, info os.FileInfo, err error) error {
 			if err == nil {
 				seen[info.ModTime().Unix()] = true
@@ -287,8 +287,9 @@ func reproConfig(g *pkgGen, i int) genOut {
 			&files.Content{Source: "stage/huge.bin", Destination: fmt.Sprintf("/opt/a%d/01-huge-again.bin", i)})
 	}
 	if i%2 == 1 {
-		c.Contents = append(c.Contents, &files.Content{Source: "stage/links", Destination: fmt.Sprintf("/opt/links%d", i)},
-			&files.Content{Source: "stage/links/*", Destination: fmt.Sprintf("/opt/links-glob%d/", i)})
+		c.Contents = append(c.Contents, &files.Content{Source: "hardlinks/names", Destination: fmt.Sprintf("/opt/links%d", i), Type: files.TypeFile},
+			&files.Content{Source: "hardlinks/names/*", Destination: fmt.Sprintf("/opt/links-glob%d/", i)},
+			&files.Content{Source: "hardlinks/names/", Destination: fmt.Sprintf("/etc/links%d", i), Type: files.TypeConfig})
 	}
 	// large files first in destination order, smaller ones after them: whatever is pipelined must still come out in order
 	if i%4 == 3 {
@@ -325,15 +326,15 @@ func stageTree() {
 	}
 	must(os.WriteFile("stage/huge.bin", huge, 0o644))
 	must(os.Chtimes("stage/huge.bin", t, t))
-	must(os.MkdirAll("stage/links", 0o755))
+	must(os.MkdirAll("hardlinks/names", 0o755))
 	for _, n := range []string{"a-first", "m-middle", "z-last"} {
-		os.Remove("stage/links/" + n)
+		os.Remove("hardlinks/names/" + n)
 	}
-	must(os.WriteFile("stage/links/m-middle", []byte("one inode, three names\n"), 0o644))
-	must(os.Chtimes("stage/links/m-middle", t, t))
-	must(os.Link("stage/links/m-middle", "stage/links/a-first"))
-	must(os.Link("stage/links/m-middle", "stage/links/z-last"))
-	must(os.Chtimes("stage/links", t, t))
+	must(os.WriteFile("hardlinks/names/m-middle", []byte("one inode, three names\n"), 0o644))
+	must(os.Chtimes("hardlinks/names/m-middle", t, t))
+	must(os.Link("hardlinks/names/m-middle", "hardlinks/names/a-first"))
+	must(os.Link("hardlinks/names/m-middle", "hardlinks/names/z-last"))
+	must(os.Chtimes("hardlinks/names", t, t))
 	for _, d := range []string{"stage/usr/lib", "stage/usr", "stage"} {
 		must(os.Chtimes(d, t, t))
 	}
